@@ -4,6 +4,7 @@ BINS = {
     "v2in":    {"dir": "v2", "mod": "v2", "harness": ["v2in"]},
     "sets":    {"dir": "internal/sets", "mod": "root", "harness": ["rootin/setscommon", "rootin/sets"]},
     "intsets": {"dir": "stringclassifier/internal/sets", "mod": "root", "harness": ["rootin/setscommon", "rootin/intsets"]},
+    "ext":     {"kind": "ext", "pkg": "."},
     "pq":      {"dir": "stringclassifier/internal/pq", "mod": "root", "harness": ["rootin/pq"]},
 }
 
@@ -13,6 +14,12 @@ def part(bin, test, part, quick, thorough, shards=(4, 16), **kw):
          "shards": {"quick": shards[0], "thorough": shards[1]}}
     d.update(kw)
     return d
+
+
+def fuzzpart(target, secs):
+    return {"bin": "ext", "test": target, "part": "native-fuzz-" + target, "fuzz": target, "fuzztime": {"thorough": secs}, "tiers": ["thorough"],
+            "checks": {"quick": 0, "thorough": 0}, "shards": {"quick": 0, "thorough": 1}, "replay_part": "structured", "serial": True,
+            "rule": "go test -fuzz=%s for %d s on all cores, seeded with license texts, scenario files and hostile constants; the shared oracle runs inside the target" % (target, secs)}
 
 
 PROPS = {
@@ -71,6 +78,15 @@ PROPS = {
             part("v2in", "TestVerif_C08_Sweeps", "sweeps", 0, 0, shards=(8, 16), enum=True),
         ],
     },
+    "C10": {
+        "rule": "structure-aware rapid generation (quick, thorough) and Go native coverage-guided fuzzing through four targets (thorough only) of byte inputs x thresholds in [0,1] x corpora (empty, empty documents, hostile documents, the input itself, full); oracle: no panic (recovered and reported with the input), no hang, public well-formedness predicate on every result",
+        "assumptions": ["the full 431-document corpus is combined with thresholds >= 0.5 only (below, every document is scored against every input: a cost question); small corpora cover thresholds down to 0", "a hang is reported only if the in-flight case, replayed alone, exceeds 300 s"],
+        "timeout": {"quick": 300, "thorough": 1500},
+        "parts": [
+            part("ext", "TestVerif_C10_Rapid", "structured", 1600, 40000, shards=(8, 16), prewrite=True, hang_detect=True),
+            fuzzpart("FuzzMatch", 150), fuzzpart("FuzzMatchFrom", 120), fuzzpart("FuzzNormalize", 90), fuzzpart("FuzzAddThenMatch", 150),
+        ],
+    },
     "C11": {
         "rule": "round trip / metamorphic: Normalize(X) line k == words Match attributes to line k, and Match(Normalize(X)) == Match(X) for licenses, over every embedded document, every scenario file and generated edited / decorated / concatenated inputs",
         "assumptions": ["Normalize by design keeps the original spelling; the comparison maps its words through an independent copy of the interchangeable-spelling table"],
@@ -78,6 +94,12 @@ PROPS = {
             part("v2in", "TestVerif_C11", "generated", 1200, 16000, shards=(8, 16)),
             part("v2in", "TestVerif_C11_EveryDoc", "every-document", 0, 0, shards=(4, 16), enum=True),
         ],
+    },
+    "C12": {
+        "rule": "generated directory trees x 12 spellings of the directory argument: LoadLicenses must not panic, must return nil, must ignore shallow and non-txt files and must equal an AddContent-built classifier (keys, token sequences, Match results on probes); DefaultClassifier vs LoadLicenses(assets) compared on every embedded document and scenario file",
+        "assumptions": ["trees are created under the driver's scratch directory; the process working directory is changed for relative spellings (cases run sequentially)", "for trees with txt files deeper than category/name/variant only 'no panic, nil error' is asserted (the statement makes no claim about them)"],
+        "parts": [part("v2in", "TestVerif_C12_Trees", "trees", 1200, 16000, shards=(8, 16)),
+                  part("ext", "TestVerif_C12_Default", "default-classifier", 0, 0, shards=(4, 16), enum=True)],
     },
     "C20": {
         "rule": "rapid-generated operation sequences interpreted against reference models (map / list) with the invariant "
@@ -138,6 +160,21 @@ MANIFEST_TEXT = {
         "level": "Differential testing with generated reader schedules, pads and injected faults, plus exhaustive sweeps (every pad 0..2056, every failure offset, chunk sizes around the 1024-byte buffer) on inputs with multi-byte runes every few bytes. Bounded exploration; exhaustive within the swept inputs.",
         "note": _V2NOTE,
         "technique": "differential property-based testing (rapid) + fault injection + exhaustive parameter sweeps",
+    },
+    "C10": {
+        "level": "Structure-aware generated-input search (rapid) in both tiers plus Go native coverage-guided fuzzing through four in-process targets in the thorough tier; the oracle (no panic, no hang, well-formed results) runs inside every target. Found the threshold-0 panic F3 (fixed). Bounded exploration; absence of crashes is never established.",
+        "note": "Public API only (external module with replace => /repo/v2). Panics are recovered and reported with the input; a hang is reported only when the in-flight case does not finish within 300 s alone. Native fuzzing cannot be pinned to a seed: its saved failing input is the reproducible unit.",
+        "technique": "structure-aware property-based testing (rapid) + coverage-guided fuzzing (go test -fuzz)",
+    },
+    "C11": {
+        "level": "Round-trip / metamorphic testing over every embedded document, every scenario file and thousands of generated edited / decorated inputs. Found and repaired three Normalize line-alignment defects (F9, F10, F20); three further root causes are recorded as known findings (F11, F12, F19) with class predicates that exclude them by construction. Bounded exploration; exhaustive over the shipped corpus and scenarios.",
+        "note": _V2NOTE + " The comparison maps Normalize's words through an independent copy of the spelling table.",
+        "technique": "round-trip property-based testing (rapid) + exhaustive enumeration over corpus and scenario files",
+    },
+    "C12": {
+        "level": "Differential testing against a reference construction: generated directory trees x 13 spellings of the directory argument, LoadLicenses vs AddContent per file (keys, token sequences, Match results), and DefaultClassifier vs LoadLicenses(assets) over every embedded document and scenario. Found the path-handling defects F4 (fixed). Bounded exploration.",
+        "note": _V2NOTE + " Trees live under the driver's scratch directory; relative spellings change the process working directory (cases run sequentially).",
+        "technique": "differential property-based testing (rapid) with generated file-system trees",
     },
     "C20": {
         "level": "Model-based property testing: thousands of generated operation sequences per container are interpreted against reference models (map / list) with the full invariant checked after every step, plus exhaustive enumeration of all subset pairs x binary operations and of all short action sequences. Bounded exploration, not proof; exhaustive within the enumerated scopes.",
